@@ -212,7 +212,7 @@ def read_only(chk: Check) -> None:
                 if bad is not None:
                     chk.ob('OWN-frozen', f, False, 'a method other than the constructor changes the wrapped dictionary: the inputs are not read-only', node=bad, kind='mutator')
     chk.ob('OWN-frozen', fd.qualname, True, 'no method outside __init__ stores into or mutates the wrapped dictionary', kind='no-mutator')
-    init = fd.methods['__init__']
+    init = prog.view(fd.methods['__init__'])
     ok = any(isinstance(n, ast.Assign) and norm(n.targets[0]) == 'self._dict' and isinstance(n.value, ast.Call) and norm(n.value.func) == 'dict' for n in ast.walk(init.node))
     chk.ob('OWN-frozen', init, ok, 'the constructor copies its argument into a new dict (later changes of the source do not show)', kind='constructor-copies')
     pp = prog.func('ports.PortNamespace.pre_process')
@@ -243,7 +243,7 @@ def required_override(chk: Check) -> None:
         if v == 'False':
             continue
         if v == ro.params[0]:
-            ok &= ('eq', dparam, '()') in ff.at(r) or any(a[1] == f'{dparam} is UNSPECIFIED' and a[0] == 'T' for a in ff.at(r))
+            ok &= ('eq', dparam, '()') in ff.at(r) or ('same', *sorted(['UNSPECIFIED', dparam])) in ff.at(r)
         else:
             ok = False
     chk.ob('PROV-default-overrides-required', ro, ok, 'required_override keeps "required" only when no default is given, and is False whenever one is', kind='override')
